@@ -228,8 +228,11 @@ func (grid *RegularGrid) IntersectQuad(r Ray) (*Quad, float32) {
 		t = xt
 	}
 
-	// start the Bresenham-like algo:
-	for {
+	// start the Bresenham-like algo. Every step crosses one column or one row, so
+	// the part of the ray that lies inside the grid is covered after rows+cols
+	// steps, however far the ray goes on (or if t cannot advance at all):
+	maxSteps := len(grid.Grid) + len(grid.Grid[0]) + 1
+	for step := 0; step <= maxSteps; step++ {
 		hitPoint := Add(newRay.From, Mul(rayDir, t))
 
 		cellX := (uint)(math.Floor((float64)(hitPoint.x-grid.Min.x) / (float64)(grid.Resolution)))
